@@ -339,12 +339,17 @@ fn chain_case(report: &mut Report, preset: Preset, seed: u64) {
 }
 
 fn zarr_case(report: &mut Report, preset: Preset, seed: u64) {
-    fn go<S: Settings>(j: &J) -> Result<(J, J), String> {
+    // the trace group is the store root or a (nested) group below it: the attribute belongs to the trace group
+    fn go<S: Settings>(j: &J, group: &str) -> Result<(J, J), String> {
         let s: S = serde_json::from_value(j.clone()).map_err(|e| format!("from_value: {e}"))?;
         let store = Arc::new(zarrs::storage::store::MemoryStore::new());
         let math = ScriptMath::new(Logged::new(Target::iso(3, 0.0), false));
-        let _trace = ZarrConfig::new(store.clone()).new_trace(&s, &math).map_err(|e| format!("new_trace: {e}"))?;
-        let g = zarrs::group::Group::open(store.clone(), "/").map_err(|e| format!("open group: {e}"))?;
+        let mut cfg = ZarrConfig::new(store.clone());
+        if group != "/" {
+            cfg = cfg.with_group_path(group);
+        }
+        let _trace = cfg.new_trace(&s, &math).map_err(|e| format!("new_trace: {e}"))?;
+        let g = zarrs::group::Group::open(store.clone(), group).map_err(|e| format!("open group {group}: {e}"))?;
         let attr = g.attributes().get("sampler_settings").cloned().unwrap_or(J::Null);
         Ok((serde_json::to_value(s).unwrap(), attr))
     }
@@ -352,19 +357,23 @@ fn zarr_case(report: &mut Report, preset: Preset, seed: u64) {
     let pname = preset.name();
     let mut rng = HRng::new(seed);
     let j = valid_settings(preset, &mut rng);
-    let replay = json!({"kind": "zarr", "preset": pname, "seed": seed});
+    let group = *rng.choose(&["/", "/grp", "/runs/a", "/a/b/c"]);
+    let replay = json!({"kind": "zarr", "preset": pname, "seed": seed, "group": group});
     let r = match preset {
-        Preset::DiagNuts => go::<DiagNutsSettings>(&j),
-        Preset::LowRankNuts => go::<LowRankNutsSettings>(&j),
-        Preset::FlowNuts => go::<FlowNutsSettings>(&j),
-        Preset::DiagMclmc => go::<DiagMclmcSettings>(&j),
-        Preset::LowRankMclmc => go::<LowRankMclmcSettings>(&j),
-        Preset::FlowMclmc => go::<FlowMclmcSettings>(&j),
+        Preset::DiagNuts => go::<DiagNutsSettings>(&j, group),
+        Preset::LowRankNuts => go::<LowRankNutsSettings>(&j, group),
+        Preset::FlowNuts => go::<FlowNutsSettings>(&j, group),
+        Preset::DiagMclmc => go::<DiagMclmcSettings>(&j, group),
+        Preset::LowRankMclmc => go::<LowRankMclmcSettings>(&j, group),
+        Preset::FlowMclmc => go::<FlowMclmcSettings>(&j, group),
     };
     match r {
         Err(e) => report.violation(format!("C19:{pname}:zarr_metadata_error"), e, replay),
         Ok((want, got)) => {
             report.count("zarr_attributes_compared", 1);
+            if group != "/" {
+                report.count("zarr_attributes_compared_in_sub_group", 1);
+            }
             if let Some(d) = first_diff(&want, &got, String::new()) {
                 report.violation(format!("C19:{pname}:zarr_settings_attribute_differs:{}", field_of(&d)), d, replay);
             }
